@@ -547,6 +547,7 @@ var lcaPerturbations = []string{
 	"timestamp+1ns", "timestamp-1s", "totalpower+1", "totalpower-1", "byz-drop-last", "byz-add-extra", "byz-power+1", "byz-swap",
 	"all-sigs-corrupted", "conflicting-is-canonical", "coalition-below-two-thirds", "header-changed-after-signing",
 	"wrong-chainid", "same-height-invalid-header", "common-height-1", "trusted-below-one-third",
+	misattributed,
 }
 
 // pickLCAPerturbation: uniform, except that the two under-signed shapes (less
@@ -671,6 +672,39 @@ func (h *hist) perturbLCA(b *lcaBase, name string) *types.LightClientAttackEvide
 			nb.flags[i] = types.BlockIDFlagCommit
 		}
 		e = h.assembleLCA(&nb, h.ch.ChainID)
+	case misattributed:
+		// Equivocation evidence in which the address of one commit signature is
+		// rewritten to that of a validator who did NOT sign the conflicting block,
+		// and the ByzantineValidators list names that validator instead of the real
+		// double signer.  Signatures are checked by position, addresses are signed
+		// by nobody: the evidence claims a misbehaviour it does not prove.
+		if b.kind != "equivocation" {
+			return nil
+		}
+		canon := h.ch.Hist[b.hx].Commit
+		vals := e.ConflictingBlock.ValidatorSet
+		i, j := -1, -1
+		for _, k := range h.r.Perm(len(b.flags)) {
+			if b.flags[k] != types.BlockIDFlagAbsent && !canon.Signatures[k].Absent() && i < 0 {
+				i = k
+			}
+			if b.flags[k] == types.BlockIDFlagAbsent && j < 0 {
+				j = k
+			}
+		}
+		if i < 0 || j < 0 {
+			return nil
+		}
+		e.ConflictingBlock.Commit.Signatures[i].ValidatorAddress = append([]byte{}, vals.Validators[j].Address...)
+		var byz []*types.Validator
+		for _, v := range e.ByzantineValidators {
+			if string(v.Address) != string(vals.Validators[i].Address) {
+				byz = append(byz, v)
+			}
+		}
+		byz = append(byz, vals.Validators[j].Copy())
+		sortByzantine(byz)
+		e.ByzantineValidators = byz
 	case "common-height-1":
 		if h.ch.Hist[b.hc-1] == nil {
 			return nil
